@@ -20,23 +20,12 @@ N_OF_DIM = {2: 3, 3: 6}
 
 # ------------------------------------------------------------------ descriptors
 def read_descriptor_semantics(repo):
-    """descriptor class name -> function(kwargs) -> list of (op, bound Fraction) on the scalar
-    branch of the checker:  op in {'>=','>','<=','<'} meaning  value op bound."""
+    """descriptor class name -> function(kwargs) -> list of (op, bound Fraction) meaning `value op bound`
+    on the SCALAR path of the checker.  The checker functions are interpreted symbolically (value = a real
+    variable, `isinstance(value, (int, float))` true, every other isinstance false), private helper
+    functions are inlined, `operator.ge/gt/le/lt` are understood; the asserted comparisons are collected."""
     path = os.path.join(repo, REL_PARAMS)
     mod = S.Module(path)
-    checks = {}
-    for name, fn in mod.funcs.items():
-        if not name.startswith("_Check"):
-            continue
-        argn = [a.arg for a in fn.args.args]
-        found = None
-        for st in fn.body:
-            if isinstance(st, ast.If) and "isinstance(value, (int, float))" in ast.unparse(st.test):
-                for s2 in st.body:
-                    if isinstance(s2, ast.Assert):
-                        found = s2.test
-                        break
-        checks[name] = (argn, found)
     sem = {}
     for cname, c in mod.classes.items():
         meths, _, _ = S.class_members(c)
@@ -46,14 +35,26 @@ def read_descriptor_semantics(repo):
         for st in meths["_checker"].body:
             if isinstance(st, ast.Expr) and isinstance(st.value, ast.Call) and isinstance(st.value.func, ast.Name):
                 called.append(st.value)
-        init = meths.get("__init__")
-        sem[cname] = (called, init)
+            elif isinstance(st, ast.Expr) and isinstance(st.value, ast.Constant):
+                continue
+            elif isinstance(st, ast.Raise):
+                called = None
+                break
+            else:
+                called = None
+                break
+        sem[cname] = (called, meths.get("__init__"))
+
+    def scalar_hook(node_args, env):
+        if len(node_args) != 2:
+            return None
+        t = ast.unparse(node_args[1])
+        return ("int" in t.replace("np.integer", "")) or ("float" in t.replace("np.floating", ""))
 
     def constraints(cname, call_kwargs, where):
-        if cname not in sem:
-            raise TranslateError("%s: unknown descriptor class %s" % (where, cname))
+        if cname not in sem or sem[cname][0] is None:
+            raise TranslateError("%s: descriptor class %s has no straight-line _checker" % (where, cname))
         called, init = sem[cname]
-        # __init__(self, inf, sup): self.__inf = inf ...
         attr = {}
         if init is not None:
             names = [a.arg for a in init.args.args[1:]]
@@ -65,43 +66,32 @@ def read_descriptor_semantics(repo):
         out = []
         for call in called:
             fname = call.func.id
-            if fname not in checks:
+            if fname not in mod.funcs:
                 raise TranslateError("%s: checker %s not found" % (where, fname))
-            argn, test = checks[fname]
+            fn = mod.funcs[fname]
             env = {}
             for k in call.keywords:
                 v = k.value
-                if isinstance(v, ast.Attribute):
+                if isinstance(v, ast.Attribute) and v.attr.lstrip("_") in attr:
                     env[k.arg] = attr[v.attr.lstrip("_")]
                 else:
                     raise TranslateError("%s: checker argument %s" % (where, ast.unparse(v)))
-            if test is None:
-                if fname in ("_CheckIsScalar", "_CheckIsScalarOrField", "_CheckIsBool"):
-                    continue
-                raise TranslateError("%s: scalar branch of %s not found" % (where, fname))
-            if not isinstance(test, ast.Compare):
-                raise TranslateError("%s: %s asserts a non-comparison" % (where, fname))
-            terms = [test.left] + list(test.comparators)
-
-            def val(n):
-                if isinstance(n, ast.Name) and n.id == "value":
-                    return "value"
-                if isinstance(n, ast.Name) and n.id in env:
-                    return env[n.id]
-                if isinstance(n, ast.Constant) and isinstance(n.value, (int, float)) and not isinstance(n.value, bool):
-                    return Fraction(repr(n.value)) if isinstance(n.value, float) else Fraction(n.value)
-                raise TranslateError("%s: bound %s in %s" % (where, ast.unparse(n), fname))
-            vals = [val(t) for t in terms]
-            for (l, op, r) in zip(vals, test.ops, vals[1:]):
-                o = {ast.Lt: '<', ast.LtE: '<=', ast.Gt: '>', ast.GtE: '>='}.get(type(op))
-                if o is None:
-                    raise TranslateError("%s: comparison operator in %s" % (where, fname))
-                if l == "value" and r != "value":
-                    out.append((o, r))
-                elif r == "value" and l != "value":
-                    out.append(({'<': '>', '<=': '>=', '>': '<', '>=': '<='}[o], l))
-                else:
-                    raise TranslateError("%s: comparison shape in %s" % (where, fname))
+            pnames = [a.arg for a in fn.args.args]
+            if not pnames:
+                raise TranslateError("%s: checker %s takes no argument" % (where, fname))
+            env[pnames[0]] = ('v', 'value')
+            it = S.Interp("%s -> %s" % (where, fname))
+            it.modfuncs = mod.funcs
+            it.isinstance_hook = scalar_hook
+            it.run(fn, env)
+            for (_, chain) in it.assert_values:
+                for (o, l, r) in chain:
+                    if l == ('v', 'value') and S.is_num(r):
+                        out.append((o, Fraction(r)))
+                    elif r == ('v', 'value') and S.is_num(l):
+                        out.append(({'<': '>', '<=': '>=', '>': '<', '>=': '<='}[o], Fraction(l)))
+                    else:
+                        raise TranslateError("%s: %s asserts a comparison that is not `value <op> constant`" % (where, fname))
         return out
     return constraints
 
